@@ -1,10 +1,14 @@
 //! Conformance harness: drives the real code built from /repo's working tree (hooks on) from
 //! TLC-generated behaviours, and records real executions for trace validation.
+mod jsoncaps;
 mod policy;
 mod pool;
 mod publish;
 
 use anyhow::{anyhow, Result};
+
+#[global_allocator]
+static GLOBAL: jsoncaps::Counting = jsoncaps::Counting;
 
 pub fn seed() -> u64 {
     std::env::var("VERIF_SEED").ok().and_then(|s| s.parse().ok()).unwrap_or(1)
@@ -16,6 +20,7 @@ fn main() -> Result<()> {
     match cmd {
         "pool-replay" => pool::replay(&args[2], &args[3]),
         "pool-record" => pool::record(&args[2], seed(), args[3].parse()?, args[4].parse()?, args[5].parse()?),
+        "jsoncaps-replay" => jsoncaps::replay(&args[2], &args[3]),
         "policy-baseline" => policy::baseline(),
         "policy-replay" => policy::replay(&args[2], &args[3]),
         "policy-ctors" => policy::ctors(&args[2], &args[3]),
